@@ -4,11 +4,11 @@
    next-header CRC of _real_get_contents; header_plain = Header._read; worker_extract =
    Worker.extract/_extract_single/_check/decompress; testzip; test_model = test()).
    Decoders, the header parser, the link-target validator are arbitrary functions
-   (universally quantified below).  symcheck = "the symbolic-link branch of
-   _extract_single compares the CRC" (false on the current tree: the harness determines which
-   instance is the implementation's and reports the defect); testzip_impl = testzip as it is
-   since commit 065e810 of /repo (a folder-level CRC error is reported); testzip false = the
-   code before that commit, kept as a regression example. *)
+   (universally quantified below).  The code as it is: extract_impl = worker_extract true (the
+   symbolic-link branch of _extract_single compares the CRC, commit c33fe91 of /repo),
+   testzip_impl = testzip true (a folder-level CRC error is reported, commit 065e810).  The
+   variants symcheck = false / testzip false are the code before those commits, kept as
+   regression examples; the harness reports a return to either behaviour. *)
 From P7 Require Import Prelude Crc32 Damage.
 Open Scope Z_scope.
 
@@ -22,6 +22,26 @@ Open Scope Z_scope.
    checksum (no damage of <= 32 bits does that: C04_burst_detected_start_header,
    C04_start_crc_alteration_rejected). *)
 Theorem C04_accept_implies_intact_or_collision :
+  forall (link_ok : bytes -> bool) (hmeta : Type) (empty_meta : hmeta)
+         (parse_plain : bytes -> res hmeta) (enc_crc : bytes -> option Z)
+         (enc_decode : bytes -> bytes -> res bytes) (shape_of : hmeta -> shape)
+         (decoder : hmeta -> bytes -> Z -> dres) (img img' : bytes) (out out' : list (mfile * bytes)),
+    read_archive true link_ok hmeta empty_meta parse_plain enc_crc enc_decode shape_of decoder img = Done out ->
+    read_archive true link_ok hmeta empty_meta parse_plain enc_crc enc_decode shape_of decoder img' = Done out' ->
+    header_protected enc_crc (next_header img) = true ->
+    (forall f d', In (f, d') out' -> f_crc f <> None -> In (f, d') out)
+    \/ (start_crc img <> start_crc img' /\ start_fields img <> start_fields img')
+    \/ crc_collision (start_fields img) (start_fields img')
+    \/ crc_collision (next_header img) (next_header img')
+    \/ (exists p p', plain_header enc_crc enc_decode img = Some p /\
+                     plain_header enc_crc enc_decode img' = Some p' /\ crc_collision p p')
+    \/ (exists f d d', In (f, d) out /\ In (f, d') out' /\ crc_collision d d').
+Proof. exact accept_implies_intact_or_collision_impl. Qed.
+Print Assumptions C04_accept_implies_intact_or_collision.
+
+(* the same for both variants of the symbolic-link branch (a member is "checked" unless it is a
+   link created on disk by the code before commit c33fe91) *)
+Theorem C04_accept_implies_intact_or_collision_both_variants :
   forall (symcheck : bool) (link_ok : bytes -> bool) (hmeta : Type) (empty_meta : hmeta)
          (parse_plain : bytes -> res hmeta) (enc_crc : bytes -> option Z)
          (enc_decode : bytes -> bytes -> res bytes) (shape_of : hmeta -> shape)
@@ -37,7 +57,7 @@ Theorem C04_accept_implies_intact_or_collision :
                      plain_header enc_crc enc_decode img' = Some p' /\ crc_collision p p')
     \/ (exists f d d', In (f, d) out /\ In (f, d') out' /\ crc_collision d d').
 Proof. exact accept_implies_intact_or_collision. Qed.
-Print Assumptions C04_accept_implies_intact_or_collision.
+Print Assumptions C04_accept_implies_intact_or_collision_both_variants.
 
 (* hypotheses met: an image and an altered image (version bytes, trailing bytes) both accepted *)
 Example C04_accept_hypotheses_met :
@@ -69,33 +89,51 @@ Theorem C04_accept_implies_intact_or_collision_refuted :
 Proof. exact accept_implies_intact_or_collision_refuted_unprotected_header. Qed.
 Print Assumptions C04_accept_implies_intact_or_collision_refuted.
 
-(* "delivered => checked": the control flow of Worker.extract / _extract_single / _check *)
+(* "delivered => checked": the control flow of Worker.extract / _extract_single / _check, for the
+   code as it is: every member a successful extraction hands out (file, factory product or
+   symbolic link) has the stored CRC-32 *)
 Theorem C04_delivered_implies_checked :
+  forall link_ok dec skip s out f d c,
+    extract_impl link_ok dec skip s = Done out ->
+    In (f, d) out -> f_crc f = Some c -> f_empty f = false ->
+    crc32 d = c.
+Proof. exact delivered_implies_checked_impl. Qed.
+Print Assumptions C04_delivered_implies_checked.
+
+Theorem C04_delivered_intact_or_collision :
+  forall link_ok dec skip s out f d d',
+    extract_impl link_ok dec skip s = Done out ->
+    In (f, d') out -> f_empty f = false ->
+    f_crc f = Some (crc32 d) ->
+    d' = d \/ crc_collision d d'.
+Proof. exact delivered_intact_or_collision_impl. Qed.
+Print Assumptions C04_delivered_intact_or_collision.
+
+(* both variants *)
+Theorem C04_delivered_implies_checked_both_variants :
   forall symcheck link_ok dec skip s out f d c,
     worker_extract symcheck link_ok dec skip s = Done out ->
     In (f, d) out -> checked symcheck f = true -> f_crc f = Some c -> f_empty f = false ->
     crc32 d = c.
 Proof. exact delivered_implies_checked. Qed.
-Print Assumptions C04_delivered_implies_checked.
+Print Assumptions C04_delivered_implies_checked_both_variants.
 
-Theorem C04_delivered_intact_or_collision :
-  forall symcheck link_ok dec skip s out f d d',
-    worker_extract symcheck link_ok dec skip s = Done out ->
-    In (f, d') out -> checked symcheck f = true -> f_empty f = false ->
-    f_crc f = Some (crc32 d) ->
-    d' = d \/ crc_collision d d'.
-Proof. exact delivered_intact_or_collision. Qed.
-Print Assumptions C04_delivered_intact_or_collision.
-
-(* REFUTED for the unchanged tree (symcheck = false): a symbolic link extracted to a path is
-   created from bytes that were never compared with the stored CRC *)
-Theorem C04_delivered_implies_checked_refuted :
+(* Regression example -- the code before commit c33fe91 (symcheck = false): a symbolic link
+   extracted to a path was created from bytes that were never compared with the stored CRC.  The
+   harness reports a return to this behaviour. *)
+Theorem C04_symlink_unchecked_regression_example :
   exists dec s out f d c,
     worker_extract false (fun _ => true) dec true s = Done out /\
     In (f, d) out /\ f_crc f = Some c /\ f_empty f = false /\ crc32 d <> c /\
     testzip false dec s = TZ (Some (f_id f)).
 Proof. exact delivered_implies_checked_refuted_symlink. Qed.
-Print Assumptions C04_delivered_implies_checked_refuted.
+Print Assumptions C04_symlink_unchecked_regression_example.
+
+(* the same input with the code as it is: rejected *)
+Example C04_symlink_checked_example :
+  let f := mkFile 7 [108] false (Some (crc32 [116; 97])) true TPath in
+  extract_impl (fun _ => true) (fun _ => DOk [[116; 98]]) true (OneFolder [f]) = Raised (XCrc (Some 7)).
+Proof. exact symlink_checked_when_repaired. Qed.
 
 (* a folder with a delivered, a skipped-but-checked, a delivered and a trailing skipped member *)
 Example C04_flow_example :
@@ -150,15 +188,15 @@ Print Assumptions C04_burst_detected_header.
 
 (* under the Copy coder (decoded member = slice of the damaged body) every <= 32-bit burst inside a
    member's packed bytes makes the extraction fail *)
-Theorem C04_copy_burst_detected : forall symcheck link_ok dec skip s f pre d d' post chunks,
+Theorem C04_copy_burst_detected : forall link_ok dec skip s f pre d d' post chunks,
   (exists sk l, In (sk, l) (calls skip s) /\ In f l) ->
-  tnone (f_tgt f) = false -> f_empty f = false -> checked symcheck f = true ->
+  tnone (f_tgt f) = false -> f_empty f = false ->
   f_crc f = Some (crc32 d) ->
   burst d d' ->
   dec (f_id f) = DOk chunks ->
   concat chunks = sliceZ (zlen pre) (zlen d') (pre ++ d' ++ post) ->
-  forall out, worker_extract symcheck link_ok dec skip s <> Done out.
-Proof. exact copy_burst_detected. Qed.
+  forall out, extract_impl link_ok dec skip s <> Done out.
+Proof. exact copy_burst_detected_impl. Qed.
 Print Assumptions C04_copy_burst_detected.
 
 Example C04_burst_example : burst [1; 2; 3; 4; 5; 6] [1; 2; 3; 255; 250; 6].
